@@ -20,7 +20,7 @@ import traceback
 
 from vf import env
 
-EVIDENCE_DIR = os.path.join(env.VERIF, "evidence")
+EVIDENCE_DIR = os.environ.get("VERIF_EVIDENCE_DIR") or os.path.join(env.VERIF, "evidence")
 REPLAY_DIR = os.path.join(env.VERIF, "replays")
 KNOWN_FILE = os.path.join(env.VERIF, "known_findings.json")
 
